@@ -165,8 +165,10 @@ for (n, r, ks, tl, tier) in ((0, 1, (), 1, "quick"), (1, 1, (2,), 2, "quick"), (
         bounds="%d entries, key lengths %s, restart interval %d, symbolic target of %d bytes" % (n, ks, r, tl))
 
 # ---------------------------------------------------------------- f. bloom filter
-def bloom_obl(name, mode, n, bpk, ks, abshash, tier="quick", fl=None):
+def bloom_obl(name, mode, n, bpk, ks, abshash, tier="quick", fl=None, kovr=None):
     d = {"VP_MODE": mode, "VP_N": n, "VP_BPK": bpk}
+    if kovr:
+        d["VP_KOVR"] = kovr
     for i, k in enumerate(ks):
         d["VP_K%d" % i] = k
     if fl is not None:
@@ -194,7 +196,7 @@ def bloom_obl(name, mode, n, bpk, ks, abshash, tier="quick", fl=None):
         functions=["ldb_bloom_init", "bloom_build", "bloom_add", "bloom_match", "bloom_hash"] +
                   (["ldb_hash"] if not abshash else []) + (["ldb_ifp_init", "ldb_ifp_build", "ldb_ifp_match"] if mode == 2 else []),
         desc=desc + (" (hash: uninterpreted deterministic function, i.e. for every hash)" if abshash else " (real ldb_hash)"),
-        bounds="%d keys of lengths %s (symbolic bytes), bits_per_key %d%s" % (n, tuple(ks[:max(n, 1)]), bpk, (", filter %d arbitrary bytes" % fl) if fl is not None else ""))
+        bounds="%d keys of lengths %s (symbolic bytes), bits_per_key %d%s%s" % (n, tuple(ks[:max(n, 1)]), bpk, (", k overridden to %d" % kovr) if kovr else "", (", filter %d arbitrary bytes" % fl) if fl is not None else ""))
 
 
 for bpk in (1, 10, 20):
@@ -207,6 +209,8 @@ bloom_obl("f.bloom-realhash-N3-B10", 0, 3, 10, (2, 5, 3), False, tier="thorough"
 bloom_obl("f.bloom-abshash-N3-B30", 0, 3, 30, (1, 2, 3), True, tier="thorough")   # 96 bits, k = 20
 bloom_obl("f.bloom-abshash-N1-B65", 0, 1, 65, (2,), True, tier="thorough")        # 72 bits, k = 30 (clamped)
 bloom_obl("f.bloom-abshash-N2-B33", 0, 2, 33, (1, 2), True, tier="thorough")      # 72 bits, k = 22
+bloom_obl("f.bloom-abshash-N1-B72-K2", 0, 1, 72, (2,), True, kovr=2)               # 72 bits, k overridden to 2
+bloom_obl("f.bloom-abshash-N2-B40-K3", 0, 2, 40, (1, 2), True, kovr=3, tier="thorough")  # 80 bits, k overridden to 3
 bloom_obl("f.bloom-realhash-N3-B30-long", 0, 3, 30, (4, 7, 8), False, tier="thorough")
 for fl in (0, 1, 2, 5, 10):
     bloom_obl("f.bloom-match-arbitrary-F%d" % fl, 1, 1, 10, (3,), True, fl=fl)
@@ -251,8 +255,9 @@ for (cs, kl, tier, to) in (((1,), 1, "quick", 300), ((2,), 2, "thorough", 900), 
         bounds="%d blocks at SYMBOLIC non-decreasing offsets < 8192 (real 2 KiB base), keys per block %s of %d symbolic bytes, symbolic probe key/offset" % (nb, cs, kl))
 
 # ---------------------------------------------------------------- g. snappy
-for (n, tier, to) in ((0, "quick", 300), (1, "quick", 300), (5, "quick", 300), (16, "quick", 300), (17, "quick", 300),
-                      (18, "quick", 300), (20, "thorough", 1800), (24, "thorough", 3000), (28, "thorough", 3000)):
+# n >= 17 reaches encode_block (hash-table matcher): 5-10 min per query, thorough tier only
+for (n, tier, to) in ((0, "quick", 300), (1, "quick", 300), (5, "quick", 300), (16, "quick", 300), (17, "thorough", 3000),
+                      (18, "thorough", 3000), (20, "thorough", 3600), (24, "thorough", 3600)):
     m = max(n - 15, 0)
     uw = {"memset.0": 514, "memcpy.0": n + 2, "vp_fill.0": n + 2,
           "encode_block.0": 4, "encode_block.1": m + 2, "encode_block.2": n + 1, "encode_block.3": m // 4 + 3,
@@ -262,7 +267,7 @@ for (n, tier, to) in ((0, "quick", 300), (1, "quick", 300), (5, "quick", 300), (
           "vp_ref_snappy_decode.0": 5, "vp_ref_snappy_decode.1": n + 1, "vp_ref_snappy_decode.2": n + 1,
           "vp_ref_snappy_decode.3": 2 * ((m + 3) // 4) + 3, "ldb_varint32_read.0": 6, "vp_ref_varint_get.0": 6,
           "harness.0": n + 1, "harness.1": n + 1}
-    for part in ((None,) if n < 17 else (1, 2)):
+    for part in (None,):
         d = {"VP_MODE": 0, "VP_N": n}
         if part:
             d["VP_PART"] = part
@@ -282,3 +287,32 @@ for (n, z, tier) in ((3, 1, "quick"), (6, 4, "quick"), (5, 8, "quick"), (8, 6, "
         functions=["snappy_decode_size", "snappy_decode", "decode_blocks"],
         desc="snappy_decode on arbitrary bytes (preamble == output size, exact-size output object): memory safe, terminates, accepts iff the reference Snappy decoder accepts, same bytes",
         bounds="%d arbitrary input bytes declaring %d output bytes" % (n, z))
+
+# ---------------------------------------------------------------- d. table builder -> independent table reader
+TB_REAL = ["table/table_builder.c", "table/block_builder.c", "table/format.c", "table/filter_block.c",
+           "util/buffer.c", "util/array.c", "util/comparator.c", "util/bloom.c", "util/hash.c", "util/snappy.c",
+           "util/strutil.c", "util/slice.c"]
+TB_KIT = ["vp_nondet.c", "vp_mem.c", "vp_alloc_c16.c", "vp_cksum.c"]
+TB_UW = dict(VARINT_UW)
+TB_UW.update({"vp_ref_bytewise.0": 9, "vp_ref_block_decode.0": 9, "vp_ref_block_decode.1": 5, "strlen.0": 4,
+              "vp_fp.0": 4, "vp_pol_build.0": 4})
+for (n, ks, bs, r, comp, flt, tier) in ((1, (1,), 1, 1, 0, 0, "quick"), (2, (1, 1), 1, 1, 0, 0, "quick"), (3, (1, 1, 1), 1, 2, 0, 0, "quick"),
+                                        (2, (1, 1), 4096, 1, 0, 0, "quick"), (2, (1, 1), 4096, 2, 0, 0, "quick"),
+                                        (1, (1,), 1, 1, 1, 0, "quick"), (2, (1, 1), 1, 1, 0, 1, "quick"),
+                                        (2, (2, 2), 1, 1, 0, 0, "thorough"), (3, (1, 2, 2), 1, 1, 0, 0, "thorough"),
+                                        (3, (2, 2, 2), 4096, 2, 0, 0, "thorough"), (3, (1, 2, 1), 4096, 3, 0, 1, "thorough"),
+                                        (2, (1, 2), 1, 1, 1, 1, "thorough")):
+    d = {"VP_N": n, "VP_BS": bs, "VP_R": r, "VP_COMP": comp, "VP_FILTER": flt, "VP_SLAB": 96}
+    for i, kl in enumerate(ks):
+        d["VP_K%d" % i] = kl
+    fps = [FP % ("ldb_tablegen_add", 1, "shortest_separator"), FP % ("ldb_tablegen_finish", 1, "short_successor")]
+    if flt:
+        fps.append(FP % ("ldb_filtergen_generate", 1, "vp_pol_build"))
+    add("d.table-N%d-K%s-BS%d-R%d-C%d-F%d" % (n, "".join(map(str, ks)), bs, r, comp, flt), "C16/table.c",
+        real=TB_REAL, kit=TB_KIT, defs=d, unwind=50, unwindset=TB_UW, restrict_fp=fps, tier=tier,
+        timeout=300 if tier == "quick" else 1800, cost=100 * n,
+        functions=["ldb_tablegen_create", "ldb_tablegen_add", "ldb_tablegen_flush", "ldb_tablegen_finish",
+                   "ldb_tablegen_write_block", "ldb_tablegen_write_raw_block", "ldb_blockgen_add", "ldb_blockgen_finish",
+                   "ldb_footer_export", "ldb_handle_export", "shortest_separator", "short_successor"],
+        desc="bytes appended by the table builder, read back by an independent table reader: footer last (magic, padding, handles), every block + 5-byte trailer (type, mask(F(contents||type))), blocks back to back, index (restart interval 1) -> handles and separator keys in [last key of block, first key of next), data blocks == added entries, metaindex/filter block; Snappy request on incompressible blocks stored raw",
+        bounds="%d entries, key lengths %s (symbolic bytes, increasing), 1-byte values, block_size %d, restart interval %d, compression %s, filter policy %s" % (n, ks, bs, r, "snappy" if comp else "none", "abstract" if flt else "none"))
